@@ -32,6 +32,17 @@ from vf.core import (  # noqa: E402
 PROPS = {f"C{n:02d}": f"vf.props.c{n:02d}" for n in range(1, 21)}
 
 
+SHARD_ENV = {
+    # C03 explores both reinterpreters and the type-checking interpreter: the flags are read at import
+    "C03": lambda k: {"FUNSOR_USE_TCO": str(k % 2), "FUNSOR_TYPECHECK": str((k // 2) % 2)},
+}
+
+
+def shard_env(pid, k):
+    f = SHARD_ENV.get(pid)
+    return f(k) if f else {}
+
+
 def load_prop(pid):
     mod = importlib.import_module(PROPS[pid])
     return mod.PROP
@@ -296,7 +307,9 @@ def parent(args):
         if args.cases:
             cmd += ["--cases", str(args.cases)]
         log = open(os.path.join(tmp, f"shard{k}.log"), "w")
-        procs.append((k, out, log, subprocess.Popen(cmd, env=env, stdout=log, stderr=log, cwd=ROOT)))
+        env_k = dict(env)
+        env_k.update(shard_env(args.id, k))
+        procs.append((k, out, log, subprocess.Popen(cmd, env=env_k, stdout=log, stderr=log, cwd=ROOT)))
     merged = Stats()
     harness_errors = []
     for k, out, log, p in procs:
